@@ -52,7 +52,7 @@ def parts():
                       describe=lambda r: {k: r.get(k) for k in ('cfg', 'strategy', 'verdict', 'outcome', 'outcomes', 'events')}),
             # AsyncServer / process servlets for real: abandoned requests (timeouts, cancelled callers, cancelled waiters) among
             # callers that must still be answered, then three plain calls and the exit
-            __import__('harness.scen_backlog', fromlist=['part']).part(14, 200),
+            __import__('harness.scen_backlog', fromlist=['part']).part(16, 200),
             # "... and the server still shuts down normally": stop() of a two-stage sequence with abandoned requests in flight
             # (scheduled, virtual pipe that cannot hold a result) and real-process pipelines left after a timed-out call / an
             # abandoned stream with payloads larger than an OS pipe buffer
